@@ -7,7 +7,7 @@
   (see Proofs/Pull.lean).
 -/
 import NngModel.Proto.Base
-import NngModel.Generated.Consts
+import NngModel.Generated.C06
 namespace Nng.Pull
 open Nng Nng.Proto
 
